@@ -61,7 +61,7 @@ DecDigits(b) == IF IsZero(b) THEN <<>> ELSE LET d == D10(b, 1, 0, <<>>) IN Appen
 DecU(b) == IF IsZero(b) THEN <<48>> ELSE DecDigits(b)
 DecS(b) == IF b[1] >= 128 THEN <<45>> \o DecU(Neg2(b)) ELSE DecU(b)
 
-\* ---------------------------------------------------------------- decimals: a table of values (16 exactly representable, 5 long spellings)
+\* ---------------------------------------------------------------- decimals: a table of values (16 exactly representable, 5 long spellings, 6 one-digit spellings of large / small magnitude)
 \* i = integer digits, f = fraction digits without trailing zeros, p32/p64 = IEEE-754 patterns of the value
 FloatTab == <<
   [i |-> <<48>>, f |-> <<>>, p32 |-> <<0, 0, 0, 0>>, p64 |-> <<0, 0, 0, 0, 0, 0, 0, 0>>],
@@ -86,7 +86,15 @@ FloatTab == <<
   [i |-> <<48>>, f |-> <<48, 48, 48, 48, 48, 48, 48, 48, 48, 48, 52, 51, 54, 53, 53, 55, 52, 54>>, p32 |-> <<46, 64, 0, 0>>, p64 |-> <<61, 200, 0, 0, 2, 231, 137, 9>>],  \* 0.000000000043655746 = 3*2^-36 as a float
   [i |-> <<49>>, f |-> <<48, 48, 48, 48, 48, 48, 48, 48, 48, 48, 48, 48, 48, 48, 48, 57>>, p32 |-> <<63, 128, 0, 0>>, p64 |-> <<63, 240, 0, 0, 0, 0, 0, 4>>],  \* 1.0000000000000009 = 1+2^-50 as a double
   [i |-> <<48>>, f |-> <<48, 48, 48, 48, 48, 48, 48, 48, 48, 48, 48, 48, 57, 48, 57, 52, 57, 52, 55>>, p32 |-> <<43, 128, 0, 0>>, p64 |-> <<61, 111, 255, 255, 254, 244, 21, 41>>],  \* 0.0000000000009094947 = 2^-40 as a float
-  [i |-> <<48>>, f |-> <<48, 48, 48, 48, 48, 48, 48, 48, 48, 48, 52, 51, 54, 53, 53, 55, 52, 53, 54, 56, 53, 49, 48, 48, 53, 53, 53>>, p32 |-> <<46, 64, 0, 0>>, p64 |-> <<61, 200, 0, 0, 0, 0, 0, 0>>] >>  \* 0.000000000043655745685100555 = 3*2^-36 as a double
+  [i |-> <<48>>, f |-> <<48, 48, 48, 48, 48, 48, 48, 48, 48, 48, 52, 51, 54, 53, 53, 55, 52, 53, 54, 56, 53, 49, 48, 48, 53, 53, 53>>, p32 |-> <<46, 64, 0, 0>>, p64 |-> <<61, 200, 0, 0, 0, 0, 0, 0>>],
+  \* values whose shortest spelling has ONE significant digit and a large or small magnitude (where an exponent form
+  \* would be the shorter text): the same text is the shortest spelling of the float and of the double
+  [i |-> <<49, 48, 48, 48, 48, 48, 48>>, f |-> <<>>, p32 |-> <<73, 116, 36, 0>>, p64 |-> <<65, 46, 132, 128, 0, 0, 0, 0>>],  \* 1000000
+  [i |-> <<54, 48, 48, 48, 48, 48, 48, 48>>, f |-> <<>>, p32 |-> <<76, 100, 225, 192>>, p64 |-> <<65, 140, 156, 56, 0, 0, 0, 0>>],  \* 60000000
+  [i |-> <<48>>, f |-> <<48, 48, 48, 48, 50>>, p32 |-> <<55, 167, 197, 172>>, p64 |-> <<62, 244, 248, 181, 136, 227, 104, 241>>],  \* 0.00002
+  [i |-> <<49, 48, 48, 48, 48, 48, 48, 48, 48, 48, 48, 48, 48, 48, 48, 48, 48, 48, 48, 48, 48, 48>>, f |-> <<>>, p32 |-> <<98, 88, 215, 39>>, p64 |-> <<68, 75, 26, 228, 214, 226, 239, 80>>],  \* 1000000000000000000000
+  [i |-> <<48>>, f |-> <<48, 48, 48, 48, 49>>, p32 |-> <<55, 39, 197, 172>>, p64 |-> <<62, 228, 248, 181, 136, 227, 104, 241>>],  \* 0.00001
+  [i |-> <<48>>, f |-> <<48, 48, 48, 49>>, p32 |-> <<56, 209, 183, 23>>, p64 |-> <<63, 26, 54, 226, 235, 28, 67, 45>>] >>  \* 0.0001  \* 0.000000000043655745685100555 = 3*2^-36 as a double
 RECURSIVE StripTZ(_)
 StripTZ(f) == IF f # <<>> /\ f[Len(f)] = 48 THEN StripTZ(SubSeq(f, 1, Len(f) - 1)) ELSE f
 FloatPat(ip, fp, neg, t) ==
